@@ -212,6 +212,19 @@ def build(repo=None):
     for item in sorted(set(inventory)):
         ob(f"C12:process-global-write-is-a-documented-setter[{item[0]}:{item[1]}:{item[2]}]", item in documented, ["C12"], why=documented.get(item, "UNDOCUMENTED process-global write"))
     ob("C12:inventory-found-the-known-setters", {k for k in documented} <= set(inventory) | {("_decorator.py", "jaxtyped", "fn.__init__")}, ["C12"], missing=sorted(set(documented) - set(inventory)))
+    # memoising decorators = process-global caches: only the documented ones (their keys determine their values)
+    caches = []
+    for rel in ("jaxtyping/_array_types.py", "jaxtyping/_pytree_type.py", "jaxtyping/_storage.py", "jaxtyping/_decorator.py", "jaxtyping/__init__.py"):
+        m = get(rel)
+        for n in ast.walk(m.tree):
+            if isinstance(n, ast.FunctionDef):
+                for d in n.decorator_list:
+                    t = ast.unparse(d)
+                    if "lru_cache" in t or t.endswith(".cache") or t == "cache" or "cached_property" in t:
+                        caches.append((rel.split("/")[-1], n.name))
+    known_caches = {("_array_types.py", "_make_array_cached"), ("_pytree_type.py", "__getitem__"), ("__init__.py", "__getattr__")}
+    for c in sorted(set(caches)):
+        ob(f"C12:memoised-function-is-a-documented-pure-constructor-cache[{c[0]}:{c[1]}]", c in known_caches, ["C12", "C03"], why="annotation construction is a pure function of its (hashable) arguments" if c in known_caches else "UNDOCUMENTED cache: a verdict could depend on what was checked earlier in the process")
     # who calls make_transparent: only the old-style generator branch of jaxtyped (the known finding site)
     callers = []
     for rel in ("jaxtyping/_array_types.py", "jaxtyping/_pytree_type.py", "jaxtyping/_storage.py", "jaxtyping/_decorator.py", "jaxtyping/_import_hook.py"):
